@@ -91,8 +91,8 @@ M = [
  ('C06', 'lattice_universe_not_shifted', K + 'Volume/CellConversion.py',
   "            else:\n                new_filltr = tuple(trnsf)", "            else:\n                new_filltr = tuple([0., 0., 0.] + trnsf[3:])"),
  ('C17', 'fill_array_too_long_accepted', K + 'FileHandlers/Parser/ParseMCNPCell.py',
-  "            if kw_list and kw_list[-1][0] in '0123456789.+-':\n                msg = (f'expected {bounds.size()} universe specifications '",
-  "            if kw_list and kw_list[-1][0] in '0123456789.+-' and False:\n                msg = (f'expected {bounds.size()} universe specifications '"),
+  "            if kw_list and (kw_list[-1][0] in '0123456789.+-'\n",
+  "            if kw_list and False and (kw_list[-1][0] in '0123456789.+-'\n"),
  ('C18', 'class_level_transform_cache', K + 'Volume/CellConversion.py',
   "        self.cell_transform_cache = {}\n", "        self.cell_transform_cache = CellConversion._shared_cache\n"),
  ('C18', 'unsorted_volume_sets', K + 'Volume/VolumeT4.py',
